@@ -54,6 +54,7 @@ impl HasDims for RichDens {
             ("r2".to_string(), 2),
             ("c3".to_string(), 3),
             ("zero".to_string(), 0),
+            ("one".to_string(), 1),
         ])
     }
 }
@@ -62,7 +63,7 @@ pub struct RichVec {
     vals: Vec<(&'static str, Value)>,
 }
 
-const RICH_VARS: [(&str, ItemType, &[&str]); 10] = [
+const RICH_VARS: [(&str, ItemType, &[&str]); 12] = [
     ("x", ItemType::F64, &["v3"]),
     ("s", ItemType::F64, &[]),
     ("m", ItemType::F64, &["r2", "c3"]),
@@ -73,6 +74,9 @@ const RICH_VARS: [(&str, ItemType, &[&str]); 10] = [
     ("b", ItemType::Bool, &["v3"]),
     ("flag", ItemType::Bool, &[]),
     ("name", ItemType::String, &[]),
+    // dimensions whose sizes multiply to one: a vector of length 1 and a 1 x 1 matrix
+    ("one1", ItemType::F64, &["one"]),
+    ("m11", ItemType::F64, &["one", "one"]),
 ];
 
 impl Storable<RichDens> for RichVec {
@@ -143,6 +147,8 @@ impl CpuLogpFunc for RichDens {
                 ("b", Value::Bool(vec![k % 2 == 0, true, a[0] > 0.0])),
                 ("flag", Value::ScalarBool(k % 2 == 1)),
                 ("name", Value::ScalarString(names[(k % 5) as usize].to_string())),
+                ("one1", Value::F64(vec![a[0] + a[1] + k as f64])),
+                ("m11", Value::F64(vec![a[0] - 2.0 * k as f64])),
             ],
         })
     }
